@@ -80,6 +80,20 @@ def run(ctx):
         what = re.sub(r"\d+", "N", str(m.get("what", "")))
         ctx.violation("multifrac:time:%s:%s" % (m.get("path", m.get("form")), what[:48]), m,
                       what="a store whose fractions are pruned by time range answers differently from the reference over all documents: " + str(m.get("what"))[:160])
+    # a bulk that only partly repeats documents must leave the fraction's time borders right (they decide which fraction
+    # is visited and when the search stops): Redeliver.tla's exhaustive histories (C17's module)
+    rdrv = vlib.build_driver("redeliver")
+    rcf = os.path.join(ctx.scratch, "mf-redeliver.jsonl")
+    r4 = vlib.run_tlc(ctx, "Redeliver.tla", "Redeliver_exh.cfg", case_file=rcf, workers=1, timeout=3400)
+    if r4.violated:
+        raise vlib.Infra("TLC: %s violated in Redeliver.tla" % r4.violated)
+    vlib.require_tlc_ok(r4, "Redeliver (for C05)")
+    mism, rsumm, _ = vlib.run_cases(ctx, rdrv, ["-workers", str(vlib.NCPU)], rcf, label="split-redeliver", timeout=3400)
+    for k in tot:
+        tot[k] += rsumm[k]
+    for m in mism:
+        ctx.violation("multifrac:redeliver:%s:%s" % (m.get("op"), (m.get("what") or "")[:24]), m,
+                      what="the same documents delivered in partly repeated bulks answer differently: " + str(m.get("what"))[:160])
     ctx.cov["traces_validated_against_impl"] = tot["cases"]
     ctx.cov["evaluations"] = tot["evals"]
     ctx.cov["distinct_nontrivial"] = tot["nontrivial"]
